@@ -171,9 +171,10 @@ func c04Duty(slot phase0.Slot, order []phase0.ValidatorIndex, ref map[phase0.Val
 }
 
 func c04Units(tier string) []hx.Unit {
-	sizePairs := [][2]uint64{{3, 4}, {4, 3}}
+	// committee sizes: small ones, and the largest mainnet allows next to one beyond it (other presets)
+	sizePairs := [][2]uint64{{3, 4}, {4, 3}, {2048, 3000}}
 	if tier == "thorough" {
-		sizePairs = [][2]uint64{{3, 4}, {4, 3}, {3, 3}, {4, 4}}
+		sizePairs = [][2]uint64{{3, 4}, {4, 3}, {3, 3}, {4, 4}, {2048, 3000}, {3000, 2048}}
 	}
 	const epoch = 3
 	var units []hx.Unit
@@ -403,7 +404,7 @@ func init() {
 	hx.Register(&hx.Prop{
 		ID:    "C04",
 		Title: "Each attestation carries exactly its validator's assignment and the agreed data",
-		Rule: "one unit per (ordered selection of 1-3 validators out of {1,2,3,4}, committee sizes, duty built by NewDuty in that order or by MergeDuties from an answer that also holds duties of the neighbouring slots with committees of other lengths); inside, all assignments of distinct (committee in {0,1}, position in {0,1,2}) pairs and all skip patterns {none, already attested by a preceding Attest of the same epoch, no account, zero signature}^k are enumerated (thorough: also sizes (3,3),(4,4) and the preceding run on the same slot); " +
+		Rule: "one unit per (ordered selection of 1-3 validators out of {1,2,3,4}, committee sizes (3 / 4 members, and 2048 / 3000), duty built by NewDuty in that order or by MergeDuties from an answer that also holds duties of the neighbouring slots with committees of other lengths); inside, all assignments of distinct (committee in {0,1}, position in {0,1,2}) pairs and all skip patterns {none, already attested by a preceding Attest of the same epoch, no account, zero signature}^k are enumerated (thorough: also sizes (3,3),(4,4) and the preceding run on the same slot); " +
 			"the real attester runs the whole Attest path; the stand-in signature encodes the signing account and the signed values, and every submitted attestation is compared with the duty entry of the validator that signed it and with the data obtained in that run; " +
 			"non-trivial = at least one validator of the duty is skipped; distinct = distinct (number skipped, attestations submitted per run, Attest error) classes",
 		Assumptions: []string{
